@@ -19,7 +19,11 @@ MANIFEST = {
             "(plot front ends excluded) is shown to write only memory that is freshly allocated in "
             "the function or that the function's frozen frame contract allows; public entry points "
             "have the empty write set; stored arrays are never written; unbounded in array sizes, "
-            "shapes, values and call sequences",
+            "shapes, values and call sequences. Second clause (a result stored under a new name never "
+            "replaces an older one): contract of Field.get_store_config (the single name-resolution "
+            "function behind every storing entry point) against its documented table for 1-3 fields and "
+            "every {True, False, name} entry combination, and store/transform call histories on the real "
+            "Krige.__call__ / Field.__call__ / Field.transform with symbolic field values (symrun)",
     "level_note": "proof relative to the numpy view/copy table (trusted, cross-checked natively on "
                   "the aliasing layout) and to the assumption that user supplied callables and "
                   "external library objects do not write their arguments; kind annotations for a "
@@ -27,11 +31,13 @@ MANIFEST = {
                   "mutations are outside the statement and only reported; the native probes are a "
                   "bounded stand-in and are never counted as discharged",
     "technique": "frame conditions (modifies / aliasing contracts) checked by modular dataflow over "
-                 "the real ast; native aliasing probes as bounded stand-in for the numpy view/copy table",
+                 "the real ast; native aliasing probes as bounded stand-in for the numpy view/copy table; "
+                 "symbolic execution of the real storing entry points against sidecar postconditions",
 }
 
 VERIF = os.path.dirname(os.path.dirname(os.path.abspath(__file__)))
 PYTHON = os.path.join(VERIF, ".venv312", "bin", "python")
+STORE_MODULES = ["contracts.c20_store"]
 
 CANARY_SRC = '''
 import numpy as np
@@ -470,6 +476,12 @@ def run(rep, tier, seed, only=None):
         shown += 1
     if probes:
         rep.sample({"probe": probes[0]})
+    # ---------------------------------------------------------------- name resolution of stored results
+    # (second clause of the statement: a result stored under a NEW name never replaces an older one)
+    from gsvc import contract
+    expl = rep.explanation
+    contract.standard_run(rep, "C20", STORE_MODULES, tier, seed, only)
+    rep.explanation = expl + "; plus symrun contracts on Field.get_store_config and store/transform histories"
 
 
 def replay(path):
@@ -479,6 +491,9 @@ def replay(path):
     from gsvc.frames_probe import run_probes
     data = json.load(open(path))
     rp = data.get("replay") or {}
+    if "contract" in rp:
+        from gsvc import contract
+        return contract.standard_replay("C20", STORE_MODULES, path)
     pr = rp.get("probe")
     if not pr:
         print("replay: no native witness recorded for %s (dataflow path only)" % data.get("obligation"))
